@@ -321,6 +321,9 @@ func (g *gen) lookupLocal(name string, e *env) (Val, bool) {
 			switch in := d.Instrs[i].(type) {
 			case *ssa.DebugRef:
 				if identName(in) == name {
+					if fv, isVar := in.Object().(*types.Var); isVar && fv.IsField() {
+						continue // the Sel identifier of a field selector `x.name`, not a local
+					}
 					if in.IsAddr {
 						av, ok := g.vals[in.X]
 						if !ok {
